@@ -767,6 +767,10 @@ func checkDecodeCashAddress(input string) (result []byte, prefix string, t Addre
 		t = AddrTypePayToPubKeyHash
 	case 0x08:
 		t = AddrTypePayToScriptHash
+	default:
+		// Reserved bit set, unknown type bits, or a size code that does not
+		// match the 20 byte payload.
+		return data, prefix, AddrTypePayToPubKeyHash, ErrUnknownAddressType
 	}
 	return data[1:21], prefix, t, nil
 }
